@@ -152,7 +152,9 @@ def g_commute(ctx, rng, i):
         l = g.join(P[0], P[1])
         m = g.join(P[0], P[2])
         rec("commute.join", "t*join(l,p)", t * g.join(l, P[2]), g.join(t * l, t * P[2]), [t, l, P[2]])
-        rec("commute.meet", "t*meet(l,e)", t * g.meet(l, H[0]), g.meet(t * l, t * H[0]), [t, l, H[0]])
+        if any(abs(float(np.dot(np.asarray(P[j].array, dtype=float), np.asarray(H[0].array, dtype=float)))) > 1e-6 for j in (0, 1)):
+            # (a line lying in the plane has no meet: the library legitimately raises, judged by C02)
+            rec("commute.meet", "t*meet(l,e)", t * g.meet(l, H[0]), g.meet(t * l, t * H[0]), [t, l, H[0]])
         rec("commute.meet", "t*meet(l,m) coplanar lines", t * g.meet(l, m), g.meet(t * l, t * m), [t, l, m])
         rec("commute.join", "t*join(l,m) coplanar lines", t * g.join(l, m), g.join(t * l, t * m), [t, l, m])
         k = g.meet(H[0], H[1])
